@@ -347,7 +347,7 @@ func c06VmCase(cs *c06Case, impl []int) string {
 }
 
 func runC06(c *core.Ctx) {
-	c.Res.Rule = "column indexes enumerated exhaustively over a small value domain (every null-page placement, every bounds combination, ascending claimed only when true of the non-null pages, and unordered) for INT64, byte arrays, FLOAT and DOUBLE (the domain value 0 is a floating point zero whose sign is chosen independently for page minima, page maxima and probes; its neighbours are denormals, the ends are the largest finite numbers and the infinities) plus random larger indexes, each probed with every domain value through Find with CompareNullsLast and CompareNullsFirst (and Search); plus the column indexes of files produced by the writer (one column of every physical/logical kind with its own indexer: INT32, INT64, UINT_32, UINT_64, FLOAT, DOUBLE with both zeros / denormals / infinities / NaN runs, INT96, strings with 0xFF prefixes, FIXED_LEN_BYTE_ARRAY, UUID; required and optional with null runs; several row groups cut by MaxRowsPerRowGroup and by Flush; writers reused through Writer.Reset), searched for every value present in a page; plus the ColumnIndex implementations Find is handed besides the index of one column chunk: the column index of a column chunk of parquet.MultiRowGroup and of the row groups MergeRowGroups builds on it (pages of the chunks concatenated, IsAscending computed from the chunks' flags and the bounds at every chunk boundary): exhaustively over 2 chunks of <= 2 pages and 3 chunks of <= 1 page (bounds in {0..2}, null pages, chunks without pages, every order an index may truthfully claim: ascending / descending / unordered), random row groups of 1..6 chunks that follow, overlap, reach into the last page of, or precede one another, with null-only chunks, put together flat, nested, through MergeRowGroups and nested in it; the flag and Find's answers are compared with the model (multi_ascending / multi_find) and the predicate is evaluated on the pages the index reports; and the row groups of the written files (data sorted per row group with row groups that follow / overlap / run ahead at their end / precede one another) seen through MultiRowGroup in file order, reversed, rotated, nested and through MergeRowGroups with and without a sorting column, every value of every page searched for. A case is one (index, comparator, flag) with all probes, one multi row group with all probes, or one column chunk of a file or of a view of it; non-trivial = at least 2 pages (2 chunks for a multi row group); distinct by the JSON of the case."
+	c.Res.Rule = "column indexes enumerated exhaustively over a small value domain (every null-page placement, every bounds combination, ascending claimed only when true of the non-null pages, and unordered) for INT64, byte arrays, FLOAT and DOUBLE (the domain value 0 is a floating point zero whose sign is chosen independently for page minima, page maxima and probes; its neighbours are denormals, the ends are the largest finite numbers and the infinities) plus random larger indexes, each probed with every domain value through Find with CompareNullsLast and CompareNullsFirst (and Search); plus the column indexes of files produced by the writer (one column of every physical/logical kind with its own indexer: BOOLEAN, INT32, INT64, UINT_32, UINT_64, FLOAT, DOUBLE with both zeros / denormals / infinities / NaN runs, INT96, strings with 0xFF prefixes, FIXED_LEN_BYTE_ARRAY, UUID with values that tie in their high half, DECIMAL on BYTE_ARRAY (shortest and sign-extended encodings of both signs) and on FIXED_LEN_BYTE_ARRAY; required and optional with null runs; several row groups cut by MaxRowsPerRowGroup and by Flush, the column index of every one of them read from the finished file; writers reused through Writer.Reset), searched for every value present in a page; files whose pages have the sizes of real files (for every fixed-width numeric kind and UUID: pages of the default page size and pages of 1 MiB of values, where the writer takes the page bounds from other routines; page lengths 1..64 above a multiple of 64; the only smallest and the only largest value of a page at random positions of its first 64, its last 64 or its other values; disjoint page bands that ascend, descend or alternate; NaN inside FLOAT / DOUBLE pages), every distinct value of every page searched for; plus the ColumnIndex implementations Find is handed besides the index of one column chunk: the column index of a column chunk of parquet.MultiRowGroup and of the row groups MergeRowGroups builds on it (pages of the chunks concatenated, IsAscending computed from the chunks' flags and the bounds at every chunk boundary): exhaustively over 2 chunks of <= 2 pages and 3 chunks of <= 1 page (bounds in {0..2}, null pages, chunks without pages, every order an index may truthfully claim: ascending / descending / unordered), random row groups of 1..6 chunks that follow, overlap, reach into the last page of, or precede one another, with null-only chunks, put together flat, nested, through MergeRowGroups and nested in it; the flag and Find's answers are compared with the model (multi_ascending / multi_find) and the predicate is evaluated on the pages the index reports; and the row groups of the written files (data sorted per row group with row groups that follow / overlap / run ahead at their end / precede one another) seen through MultiRowGroup in file order, reversed, rotated, nested and through MergeRowGroups with and without a sorting column, every value of every page searched for. A case is one (index, comparator, flag) with all probes, one multi row group with all probes, or one column chunk of a file or of a view of it; non-trivial = at least 2 pages (2 chunks for a multi row group); distinct by the JSON of the case."
 	var vm []string
 	addVm := func(cs *c06Case) {
 		if cs.Kind != "int64" || len(vm) >= 300 {
@@ -528,6 +528,7 @@ func runC06(c *core.Ctx) {
 	})
 
 	c06Files(c)
+	c06LargeFiles(c)
 
 	c.Vm("From Coq Require Import List ZArith Bool Arith.\nFrom PQ Require Import Search.Model Search.MultiFind.\nImport ListNotations.")
 	c.Vm("Definition cases : list (bool * bool * list (option (Z * Z)) * Z * nat) := [\n  " + strings.Join(vm, ";\n  ") + "].")
@@ -683,14 +684,45 @@ var c06Cols = []c06Col{
 		enc: func(v int64, r uint64) []byte {
 			return binary.BigEndian.AppendUint32([]byte{0xff, 0xff}, uint32(v+c06Cross)<<22|uint32(r%4))
 		}},
-	// 16 bytes: the values share their high half and differ in the top bit of
-	// the low half (unsigned order of both halves)
+	// 16 bytes, unsigned order of both halves: four neighbouring values share
+	// their high half (its top byte crosses 0x80 inside the domain) and differ in
+	// the top bits of the low half, so that the pages hold values whose high
+	// halves tie with the running minimum / maximum and values that replace it
 	{name: "uuid", node: func() parquet.Node { return parquet.UUID() },
 		enc: func(v int64, r uint64) []byte {
 			var u [16]byte
-			u[7] = 1
-			binary.BigEndian.PutUint64(u[8:], uint64(v+c06Cross)<<54|r%4)
+			x := uint64(v + c06Cross)
+			binary.BigEndian.PutUint64(u[:8], (x>>2)<<56|0x0000010000000000)
+			binary.BigEndian.PutUint64(u[8:], (x&3)<<62|r%4)
 			return u[:]
+		}},
+	// BOOLEAN: false below the zero of the domain
+	{name: "bool", node: func() parquet.Node { return parquet.Leaf(parquet.BooleanType) },
+		enc: func(v int64, r uint64) []byte {
+			if v >= 0 {
+				return []byte{1}
+			}
+			return []byte{0}
+		}},
+	// DECIMAL on byte arrays (the indexer of type_decimal.go): big-endian two's
+	// complement numbers compared by value. BYTE_ARRAY: the shortest encoding
+	// of 37*v (1 or 2 bytes, both signs), sometimes with one more sign byte (equal
+	// numbers of different lengths)
+	{name: "decbytes", node: func() parquet.Node { return parquet.Decimal(2, 20, parquet.ByteArrayType) },
+		enc: func(v int64, r uint64) []byte {
+			b := binary.BigEndian.AppendUint64(nil, uint64(37*v))
+			for len(b) > 1 && (b[0] == 0x00 && b[1] < 0x80 || b[0] == 0xff && b[1] >= 0x80) {
+				b = b[1:]
+			}
+			if r%3 == 0 {
+				b = append([]byte{byte(int8(b[0]) >> 7)}, b...)
+			}
+			return b
+		}},
+	// FIXED_LEN_BYTE_ARRAY(7): v in the top bytes, noise in the lowest one
+	{name: "decflba", node: func() parquet.Node { return parquet.Decimal(2, 16, parquet.FixedLenByteArrayType(7)) },
+		enc: func(v int64, r uint64) []byte {
+			return binary.BigEndian.AppendUint64(nil, uint64(v<<46)|r%4)[1:]
 		}},
 }
 
@@ -871,7 +903,7 @@ func c06FileCheck(c *core.Ctx, fc *c06File, record bool) (ok bool) {
 // c06ChunkSearch reads the pages of a column chunk and searches its column
 // index for every value present in a page: Search must answer that page or an
 // earlier one whose bounds contain the value. Returns the number of values read.
-func c06ChunkSearch(c *core.Ctx, fc *c06File, cc parquet.ColumnChunk, ix parquet.ColumnIndex, class, where string, record bool) (rowsSeen int, ok bool) {
+func c06ChunkSearch(c *core.Ctx, fc any, cc parquet.ColumnChunk, ix parquet.ColumnIndex, class, where string, record bool) (rowsSeen int, ok bool) {
 	ok = true
 	typ := cc.Type()
 	pages := cc.Pages()
@@ -886,9 +918,24 @@ func c06ChunkSearch(c *core.Ctx, fc *c06File, cc parquet.ColumnChunk, ix parquet
 		vals := make([]parquet.Value, pg.NumValues())
 		k, _ := pg.Values().ReadValues(vals)
 		rowsSeen += k
+		// a large page: every distinct value once
+		var seen map[[17]byte]struct{}
+		if k > 4096 {
+			seen = make(map[[17]byte]struct{})
+		}
 		for _, val := range vals[:k] {
 			if val.IsNull() || c06IsNaN(val) {
 				continue
+			}
+			if seen != nil {
+				var key [17]byte
+				if b := val.AppendBytes(key[:0]); len(b) <= 16 {
+					key[16] = byte(len(b))
+					if _, dup := seen[key]; dup {
+						continue
+					}
+					seen[key] = struct{}{}
+				}
 			}
 			r := parquet.Search(ix, val, typ)
 			if record {
@@ -907,6 +954,9 @@ func c06ChunkSearch(c *core.Ctx, fc *c06File, cc parquet.ColumnChunk, ix parquet
 					c.Violation(class+"-result-does-not-contain", fmt.Sprintf("%s: Search(%s) returned page %d whose bounds [%s,%s] exclude it", where, c06Show(val), r, c06Show(ix.MinValue(r)), c06Show(ix.MaxValue(r))), fc)
 					ok = false
 				}
+			}
+			if !ok && k > 4096 {
+				break // a large page: the first failure will do
 			}
 		}
 		parquet.Release(pg)
@@ -1081,6 +1131,11 @@ func c06Files(c *core.Ctx) {
 }
 
 func replayC06(c *core.Ctx, raw json.RawMessage) {
+	var lc c06Large
+	if err := json.Unmarshal(raw, &lc); err == nil && lc.PageBuf > 0 && len(lc.Pages) > 0 && c06ColByName(lc.Col) != nil {
+		c06LargeCheck(c, &lc, true)
+		return
+	}
 	var fc c06File
 	if err := json.Unmarshal(raw, &fc); err == nil && fc.Col != "" && c06ColByName(fc.Col) != nil {
 		c06FileCheck(c, &fc, true)
